@@ -82,8 +82,8 @@ def _yaml(path, line, names, perauthor):
     for b in ('bypass_author_approval', 'bypass_peer_approval', 'bypass_leader_approval',
               'bypass_build_status', 'bypass_jira_check'):
         lines.append('    - ' + b)
-    lines.append('  author:' + (' []' if not perauthor else ''))
-    for b in perauthor:
+    lines.append('  author:')
+    for b in ['bypass_build_status', 'bypass_jira_check'] + list(perauthor):   # unrelated bypasses always present
         lines.append('    - ' + b)
     lines.append('  zzz_other:')
     lines.append('    - bypass_incompatible_branch')
